@@ -219,6 +219,11 @@ impl Operation {
             .find(|p| p.name.is_empty())
         {
             empty_param.name = name.into();
+        } else {
+            /* a path param that the handler doesn't take (e.g. of a parent's prefix) is still a part of the path template */
+            let mut param = Parameter::in_path(crate::string());
+            param.name = name.into();
+            self.parameters.push(param);
         }
     }
 
